@@ -8,7 +8,8 @@
 (* replica makes that replica the target and, if it was exhausted, gives it "one more chance"  *)
 (* (replica.onUpdateLeader) - every time.  TLC then finds the lasso in which two stores keep   *)
 (* naming each other: no back-off, no exhaustion, no end (known finding of C10).               *)
-(* ChanceOnce = TRUE grants the extra chance once per replica: Terminates holds.               *)
+(* ChanceOnce = TRUE bounds the extra chances per replica (the model grants one, the repaired    *)
+(* code - 6638d57 - at most maxReplicaAttempt): Terminates holds.                               *)
 EXTENDS Integers, FiniteSets, TLC
 CONSTANTS Replicas, MaxAttempt, Budget, ChanceOnce
 VARIABLES pc, attempts, leader, target, budget, result, lastReply, chanced, sent, retryFlag
